@@ -4,7 +4,7 @@
    Quantifiers: every qubit count n >= 1, every previous layer accepted by the layer constructor (or none),
    every seed, every decision stream, every fuel.  What is NOT claimed: termination for every stream
    (a stream may reject forever; for Python's generator termination is a probability-one statement). *)
-From QV Require Import Evqe.Genome Evqe.Stream Evqe.RandLayer Evqe.RandLayer_proofs.
+From QV Require Import Evqe.Genome Evqe.Stream Evqe.RandLayer Evqe.RandLayer_proofs Evqe.RandLayer_exists_proofs.
 Open Scope Z_scope.
 
 (* random_layer: the result is a valid layer on n qubits with 3 parameters per (controlled) rotation that
@@ -37,6 +37,15 @@ Theorem C20_no_forced_livelock :
      end).
 Proof. exact C20_no_forced_livelock_proof. Qed.
 Print Assumptions C20_no_forced_livelock.
+
+(* ... and the loop CAN always be left: for every n >= 1, previous layer and seed there is a decision stream and
+   a fuel on which random_layer returns a layer and consumes the stream exactly (built from draws that are all
+   accepted: if (r, c) is rejected the stream draws (c, r)) *)
+Theorem C20_termination_possible : forall n prev seed,
+  1 <= n -> prev_good n prev ->
+  exists s fuel l, random_layer n prev seed s fuel = Ok (l, []).
+Proof. exact random_layer_exists. Qed.
+Print Assumptions C20_termination_possible.
 
 (* random_individual: valid, n qubits, n_layers layers, every adjacent pair of layers free of repeats *)
 Theorem C20_individual_chain : forall n n_layers randomize seed s fuel,
